@@ -365,12 +365,12 @@ static const struct v15v { int v, sub; const char *name, *cls; } V15[] = {
     { V_BB06, 2, "bb06-ff7", "accepts-trailing-garbage" }, { V_BB06, 3, "bb06-ff8", "accepts-trailing-garbage" },
     { V_BB06, 4, "bb06-ff9", "accepts-trailing-garbage" }, { V_BB06, 5, "bb06-ffrand", "accepts-trailing-garbage" },
     { V_BB06, 6, "bb06-one-garbage-byte", "accepts-trailing-garbage" }, { V_BB06, 7, "bb06-ff8-zero-garbage", "accepts-trailing-garbage" },
-    { V_WRONGOID, 0, "oid-last-byte", "accepts-bad-digestinfo" }, { V_WRONGOID, 1, "oid-other-alg", "accepts-bad-digestinfo" }, { V_WRONGOID, 2, "oid-truncated", "accepts-bad-digestinfo" },
-    { V_LONGFORM, 0, "ber-seq-len", "accepts-bad-digestinfo" }, { V_LONGFORM, 1, "ber-alg-len", "accepts-bad-digestinfo" }, { V_LONGFORM, 2, "ber-oid-len", "accepts-bad-digestinfo" },
-    { V_LONGFORM, 3, "ber-octet-len", "accepts-bad-digestinfo" }, { V_LONGFORM, 4, "ber-all-len", "accepts-bad-digestinfo" }, { V_LONGFORM, 5, "ber-seq-len2", "accepts-bad-digestinfo" },
-    { V_PARAMS, 0, "absent-null", "accepts-bad-digestinfo" }, { V_PARAMS, 1, "drop-null-keep-lengths", "accepts-bad-digestinfo" },
-    { V_PARAMS, 2, "params-octet2", "accepts-bad-digestinfo" }, { V_PARAMS, 3, "params-octet8", "accepts-bad-digestinfo" }, { V_PARAMS, 4, "params-octet-max", "accepts-bad-digestinfo" },
-    { V_PARAMS, 5, "null-longform", "accepts-bad-digestinfo" }, { V_PARAMS, 6, "null-with-content", "accepts-bad-digestinfo" },
+    { V_WRONGOID, 0, "oid-last-byte", "accepts-digestinfo-wrong-oid" }, { V_WRONGOID, 1, "oid-other-alg", "accepts-digestinfo-wrong-oid" }, { V_WRONGOID, 2, "oid-truncated", "accepts-digestinfo-wrong-oid" },
+    { V_LONGFORM, 0, "ber-seq-len", "accepts-digestinfo-ber-lengths" }, { V_LONGFORM, 1, "ber-alg-len", "accepts-digestinfo-ber-lengths" }, { V_LONGFORM, 2, "ber-oid-len", "accepts-digestinfo-ber-lengths" },
+    { V_LONGFORM, 3, "ber-octet-len", "accepts-digestinfo-ber-lengths" }, { V_LONGFORM, 4, "ber-all-len", "accepts-digestinfo-ber-lengths" }, { V_LONGFORM, 5, "ber-seq-len2", "accepts-digestinfo-ber-lengths" },
+    { V_PARAMS, 0, "absent-null", "accepts-bad-digestinfo" }, { V_PARAMS, 1, "drop-null-keep-lengths", "accepts-digestinfo-inconsistent-lengths" },
+    { V_PARAMS, 2, "params-octet2", "accepts-digestinfo-extra-params" }, { V_PARAMS, 3, "params-octet8", "accepts-digestinfo-extra-params" }, { V_PARAMS, 4, "params-octet-max", "accepts-digestinfo-extra-params" },
+    { V_PARAMS, 5, "null-longform", "accepts-digestinfo-nonstandard-null" }, { V_PARAMS, 6, "null-with-content", "accepts-digestinfo-nonstandard-null" },
     { V_DIGLEN, 0, "digest-short1", "accepts-wrong-digest-length" }, { V_DIGLEN, 1, "digest-long1", "accepts-wrong-digest-length" },
     { V_DIGLEN, 2, "octet-len-plus1", "accepts-wrong-digest-length" }, { V_DIGLEN, 3, "octet-len-minus1", "accepts-wrong-digest-length" },
     { V_DIGWRONG, 0, "digest-random", "accepts-wrong-digest" }, { V_DIGWRONG, 1, "digest-flip-first", "accepts-wrong-digest" }, { V_DIGWRONG, 2, "digest-flip-last", "accepts-wrong-digest" },
@@ -379,7 +379,7 @@ static const struct v15v { int v, sub; const char *name, *cls; } V15[] = {
     { V_SIGLEN, 4, "sig-empty", "accepts-wrong-length-signature" }, { V_SIGLEN, 5, "sig-1byte", "accepts-wrong-length-signature" },
     { V_SGEN, 0, "s-plus-n", "accepts-s-out-of-range" }, { V_SGEN, 1, "s-plus-n-longer", "accepts-s-out-of-range" },
     { V_STRIP, 0, "strip-leading-zero", "accepts-wrong-length-signature" },
-    { V_ALGMIS, 0, "alg-mismatch", "accepts-bad-digestinfo" },
+    { V_ALGMIS, 0, "alg-mismatch", "accepts-digestinfo-wrong-oid" },
     { V_WRONGKEY, 0, "wrong-key", "accepts-wrong-key" },
 };
 #define NV15 ((int) (sizeof V15 / sizeof V15[0]))
@@ -953,11 +953,12 @@ typedef struct {
     psPubKey_t pub, priv; int have_priv;
 } eck_t;
 /* make (deterministically) or load a key and import both halves into MatrixSSL */
-static int eck_make(eck_t *E, const curve_t *C, const char *tag, int fromfile)
+static int eck_make2(eck_t *E, const curve_t *C, const char *tag, int fromfile, EC_KEY *given)
 {
     memset(E, 0, sizeof *E); E->C = C;
     if (getEccParamById((psCurve16_t) C->iana, &E->mc) < 0 || !E->mc) { vf_incon("curve %s not available in the library", C->name); return 0; }
-    if (fromfile) {
+    if (given) E->ek = given;
+    else if (fromfile) {
         char path[512]; snprintf(path, sizeof path, "%s/%s", g_testkeys, C->tkfile);
         FILE *f = fopen(path, "r"); if (!f) { vf_incon("cannot open %s", path); return 0; }
         E->ek = PEM_read_ECPrivateKey(f, NULL, NULL, NULL); fclose(f);
@@ -989,6 +990,7 @@ static int eck_make(eck_t *E, const curve_t *C, const char *tag, int fromfile)
     E->priv.keysize = (psSize_t) C->size; E->have_priv = 1;
     return 1;
 }
+static int eck_make(eck_t *E, const curve_t *C, const char *tag, int fromfile) { return eck_make2(E, C, tag, fromfile, NULL); }
 static void eck_free(eck_t *E)
 {
     if (E->ek) EC_KEY_free(E->ek);
@@ -1353,13 +1355,25 @@ static void case_ecdh(unit_t *u, int ci)
 {
     eck_t *A = unit_eckey(u, 0, u->a, 0), *B; if (!A) return;
     eck_t Bk; char tag[64]; snprintf(tag, sizeof tag, "ecdhpeer:%s:%d:%d", CURVES[u->a].name, u->round, ci);
-    if (!eck_make(&Bk, &CURVES[u->a], tag, 0)) return;
-    B = &Bk;
     int sz = A->C->size;
-    unsigned char ref[70], *out = malloc(sz); psSize_t ol = (psSize_t) sz;
+    unsigned char ref[70];
+    const char *vn = "random-pair";
+    if (ci == 1) { /* a peer for which the shared x coordinate has a leading zero octet: output must stay fixed-length */
+        EC_KEY *b = NULL; int found = 0;
+        for (int t = 0; t < 4000 && !found; t++) {
+            if (b) EC_KEY_free(b);
+            b = EC_KEY_new_by_curve_name(CURVES[u->a].nid); EC_KEY_generate_key(b);
+            if (ECDH_compute_key(ref, sz, EC_KEY_get0_public_key(b), A->ek, NULL) == sz && ref[0] == 0) found = 1;
+        }
+        if (!found) vf_stat("skipped_no_leading_zero_ecdh_secret", 1);
+        if (!eck_make2(&Bk, &CURVES[u->a], tag, 0, b)) return;
+        vn = "leading-zero-secret";
+    } else if (!eck_make(&Bk, &CURVES[u->a], tag, 0)) return;
+    B = &Bk;
+    unsigned char *out = malloc(sz); psSize_t ol = (psSize_t) sz;
     int rl = ECDH_compute_key(ref, sz, EC_KEY_get0_public_key(B->ek), A->ek, NULL);
     int rc = psEccGenSharedSecret(NULL, &A->priv.key.ecc, &B->pub.key.ecc, out, &ol, NULL);
-    rec("ecdh", A->C->name, "random-pair", NULL);
+    rec("ecdh", A->C->name, vn, NULL);
     if (rl != sz) vf_incon("libcrypto ECDH failed");
     else if (rc < 0) viol("ecdh", "spurious-failure", "psEccGenSharedSecret rc=%d curve %s", rc, A->C->name);
     else if (ol != sz || memcmp(out, ref, sz)) viol("ecdh", "secret-mismatch", "ECDH secret differs from libcrypto: curve %s peer=%s got=%s want=%s", A->C->name, hx(B->pt, B->ptlen), hx(out, ol), hx(ref, sz));
@@ -1808,7 +1822,7 @@ static void build_units(void)
     /* ---- ECC ---- */
     for (int c = 0; c < NCURVES; c++) {
         int sz = CURVES[c].size;
-        int er = T ? 40 : 2, ir = T ? 60 : 2, sr = T ? 12 : 1, dr = T ? 6 : 1;
+        int er = T ? 40 : 2, ir = T ? 200 : 2, sr = T ? 12 : 1, dr = T ? 6 : 1;
         for (int round = 0; round < er; round++) {
             for (int h = 0; h < 5; h++) { unit_t *u = add_unit("ecdsa-verify", case_ecdsa, NECV, "ecdsa/%s/h%d/r%d", CURVES[c].name, HLENS[h], round); u->a = c; u->b = h; u->round = round; }
             unit_t *u = add_unit("ecdsa-verify", case_ecdsa_sweep, 150 + 2 * sz, "ecdsas/%s/r%d", CURVES[c].name, round); u->a = c; u->round = round;
@@ -1824,8 +1838,8 @@ static void build_units(void)
     }
     /* ---- DH, X25519, Ed25519 ---- */
     for (int g = 0; g < NDHG; g++) for (int round = 0; round < (T ? 4 : 1); round++) { unit_t *u = add_unit("dh", case_dh, NDHV, "dh/%s/r%d", DHG[g].name, round); u->a = g; u->round = round; }
-    for (int k = 0; k < (T ? 400 : 4); k++) add_unit("x25519", case_x25519, k == 0 ? 128 : 128, "x25519/c%d", k);
-    for (int k = 0; k < (T ? 300 : 6); k++) { unit_t *u = add_unit("ed25519-verify", case_ed, NEDV + ED_SWEEP, "ed/k%d", k); u->a = k; }
+    for (int k = 0; k < (T ? 1000 : 4); k++) add_unit("x25519", case_x25519, 128, "x25519/c%d", k);
+    for (int k = 0; k < (T ? 600 : 6); k++) { unit_t *u = add_unit("ed25519-verify", case_ed, NEDV + ED_SWEEP, "ed/k%d", k); u->a = k; }
     for (int b = 0; b < 4; b++) { unit_t *u = add_unit("ed25519-verify", case_ed_trunc, 1, "edtrunc/l%d", b); u->a = 0; u->b = b; }
     add_unit("ed25519-verify", case_ed_vectors, 4, "edvec");
 }
